@@ -155,7 +155,31 @@ func (e *Engine) findFunc(c *Contract) *ssa.Function {
 		return fn.AnonFuncs[n-1]
 	}
 	if c.RecvType == "" {
-		return p.Func(c.Name)
+		if fn := p.Func(c.Name); fn != nil {
+			return fn
+		}
+		// a package-level variable initialised with a function literal: var F = func(...) {...}
+		if g, ok := p.Members[c.Name].(*ssa.Global); ok {
+			if init := p.Func("init"); init != nil {
+				for _, b := range init.Blocks {
+					for _, in := range b.Instrs {
+						st, ok := in.(*ssa.Store)
+						if !ok || st.Addr != ssa.Value(g) {
+							continue
+						}
+						switch v := st.Val.(type) {
+						case *ssa.Function:
+							return v
+						case *ssa.MakeClosure:
+							if fn, ok := v.Fn.(*ssa.Function); ok {
+								return fn
+							}
+						}
+					}
+				}
+			}
+		}
+		return nil
 	}
 	tn, ok := p.Pkg.Scope().Lookup(c.RecvType).(*types.TypeName)
 	if !ok {
